@@ -6,10 +6,11 @@ Open Scope N_scope.
 (* every well-formed property value (nested lists and maps, floats as 64-bit
    patterns incl. NaN payloads and signed zeros, strings = valid UTF-8 byte
    strings incl. empty / non-ASCII, blobs, maps in key order, lengths < 2^32)
-   is decoded to exactly what was encoded, whatever follows it, and the decoder
-   consumes exactly the encoding *)
+   whose lists/maps are nested at most MAX_PROPERTY_NESTING deep — the values the engine
+   accepts (commit, bulk load and the WAL encoder refuse deeper ones) — is decoded to exactly
+   what was encoded, whatever follows it, and the decoder consumes exactly the encoding *)
 Definition C25_pv_roundtrip_statement : Prop :=
-  forall v rest, wf v = true ->
+  forall v rest, wf v = true -> cdepth v <= pv_max_nesting ->
     dec_top (encode v ++ rest) = Ok (v, len (encode v)) /\ decode (encode v ++ rest) = Ok v.
 Theorem C25_pv_roundtrip : C25_pv_roundtrip_statement.
 Proof. exact roundtrip. Qed.
@@ -34,16 +35,23 @@ Theorem C25_alloc_bounded : C25_alloc_bounded_statement.
 Proof. exact alloc_bounded. Qed.
 Print Assumptions C25_alloc_bounded.
 
-(* recursion depth: at most one level per 5 input bytes (and no better bound exists:
-   see the Example below and known finding K-C25-depth) *)
-Definition C25_depth_bounded_statement : Prop := forall b : bytes, 5 * depth b <= len b + 5.
+(* recursion depth: for EVERY byte string at most MAX_PROPERTY_NESTING + 1 nested calls
+   (a constant), and at most one level per 5 input bytes *)
+Definition C25_depth_bounded_statement : Prop :=
+  forall b : bytes, depth b <= pv_max_nesting + 1 /\ 5 * depth b <= len b + 5.
 Theorem C25_depth_bounded : C25_depth_bounded_statement.
-Proof. exact depth_bounded. Qed.
+Proof. exact (fun b => conj (depth_limited b) (depth_bounded b)). Qed.
 Print Assumptions C25_depth_bounded.
-Example C25_depth_linear_witness :
-  let nest := fix nest (k : nat) : bytes := match k with O => [0] | S k' => [7; 1; 0; 0; 0] ++ nest k' end in
-  depth (nest 40%nat) = 41 /\ len (nest 40%nat) = 201.
-Proof. vm_compute. split; reflexivity. Qed.
+
+(* the bound is reached: k nested one-element list headers have depth k + 1 for every
+   k <= MAX_PROPERTY_NESTING; for every larger k decoding is the error TooDeep (on the pinned
+   tree: unbounded recursion, stack overflow at 209000 levels) *)
+Definition C25_depth_reached_statement : Prop :=
+  (forall k, N.of_nat k <= pv_max_nesting -> depth (nest k) = N.of_nat k + 1) /\
+  (forall k, pv_max_nesting < N.of_nat k -> decode (nest k) = Err ETooDeep).
+Theorem C25_depth_reached : C25_depth_reached_statement.
+Proof. exact (conj depth_nest decode_nest_deep). Qed.
+Print Assumptions C25_depth_reached.
 
 (* log framing: a record body of 1..MAX bytes written as len|crc32|body is read back
    exactly, whatever follows it *)
